@@ -2,9 +2,11 @@ import BigDec.Model.Types
 /-! Rational enclosure of `e^x` for a decimal `x`, in fixed-point interval arithmetic with outward
     rounding (`D` fractional decimal digits).
 
-    `e^|x| = (e^y)^(2^j)` with `y = |x| / 2^j ≤ 1/2` (exact decimal), `e^y ∈ [Σ_{k≤N} y^k/k!,  Σ + 2·y^(N+1)/(N+1)!]`
-    (for `0 ≤ y ≤ 1/2` the tail is at most twice its first term), then `j` squarings of a positive
-    interval, and the reciprocal interval for negative `x`. -/
+    `e^|x| = (e^y)^(2^j)` with `y = |x| / 2^j ≤ 1/2` (exact fraction), `e^y ∈ [Σ_{k≤N} y^k/k!,  Σ + 2·y^N/N!]`
+    (for `0 ≤ y ≤ 1/2` the tail after the `N`-th term is at most twice that term), then `j` squarings of
+    a positive interval, and the reciprocal interval for negative `x`.
+    All loops are structural (fuel), so that `Proofs/ExpEnclosure` can prove the enclosure sound with
+    respect to `Real.exp`. -/
 namespace BigDec.Spec
 
 /-- fixed-point numbers are integers meaning `v / 10^D` -/
@@ -15,45 +17,47 @@ structure Ival where
 
 def ceilDiv (a b : Nat) : Nat := (a + b - 1) / b
 
+/-- the series loop: `tlo ≤ 10^D·y^(k-1)/(k-1)! ≤ thi`, `slo ≤ 10^D·Σ_{i<k} y^i/i! ≤ shi`; stops after `fuel`
+    more terms or as soon as the upper bound of the last term is at most one unit.
+    Returns `(slo, shi, thi)`. -/
+def expSeries (yn yd : Nat) : Nat → Nat → Nat → Nat → Nat → Nat → Nat × Nat × Nat
+  | 0, _, _, thi, slo, shi => (slo, shi, thi)
+  | fuel + 1, k, tlo, thi, slo, shi =>
+    let tlo' := (tlo * yn) / (yd * k)
+    let thi' := ceilDiv (thi * yn) (yd * k)
+    if thi' ≤ 1 then (slo + tlo', shi + thi', thi')
+    else expSeries yn yd fuel (k + 1) tlo' thi' (slo + tlo') (shi + thi')
+
 /-- enclosure of `e^y` for the exact fraction `y = yn / yd` with `0 ≤ y ≤ 1/2`, at `D` digits -/
-def expSmall (yn yd : Nat) (D : Nat) : Ival := Id.run do
+def expSmall (yn yd : Nat) (D : Nat) : Ival :=
   let one := 10 ^ D
-  let mut tlo := one     -- term y^k / k!  lower / upper bound, fixed point
-  let mut thi := one
-  let mut slo := one
-  let mut shi := one
-  let mut k := 1
-  -- stop once the upper bound of the term is zero-ish; 400 terms are far more than enough for y ≤ 1/2
-  for _ in [0:400] do
-    tlo := (tlo * yn) / (yd * k)
-    thi := ceilDiv (thi * yn) (yd * k)
-    slo := slo + tlo
-    shi := shi + thi
-    k := k + 1
-    if thi ≤ 1 then break
-  -- remainder: at most twice the next term (≤ 2·thi since terms decrease), plus one unit of slack
-  return ⟨slo, shi + 2 * thi + 2⟩
+  -- 400 terms are far more than enough for y ≤ 1/2
+  let (slo, shi, thi) := expSeries yn yd 400 1 one one one one
+  -- remainder: at most twice the last term, plus two units of slack
+  ⟨slo, shi + 2 * thi + 2⟩
 
 def sqIval (v : Ival) (D : Nat) : Ival := ⟨(v.lo * v.lo) / 10 ^ D, ceilDiv (v.hi * v.hi) (10 ^ D)⟩
 
+/-- `j` with `num / (den · 2^j) ≤ 1/2`: doubles the denominator while `2·num > d`; returns `(d, j)` -/
+def halvings (num : Nat) : Nat → Nat → Nat → Nat × Nat
+  | 0, d, j => (d, j)
+  | fuel + 1, d, j => if 2 * num > d then halvings num fuel (d * 2) (j + 1) else (d, j)
+
+def sqTimes (D : Nat) : Nat → Ival → Ival
+  | 0, v => v
+  | j + 1, v => sqTimes D j (sqIval v D)
+
 /-- enclosure of `e^x` for `x = xi · 10^-xs`, at `D` fractional digits: (lo, hi) fixed point -/
-def expEnclosure (xi : Int) (xs : Int) (D : Nat) : Ival := Id.run do
+def expEnclosure (xi : Int) (xs : Int) (D : Nat) : Ival :=
   let n := xi.natAbs
   -- |x| as a fraction num/den
   let (num, den) : Nat × Nat := if xs ≥ 0 then (n, 10 ^ xs.toNat) else (n * 10 ^ (-xs).toNat, 1)
-  -- j with |x| / 2^j ≤ 1/2
-  let mut j := 0
-  let mut d := den
-  while 2 * num > d do
-    d := d * 2
-    j := j + 1
-  let mut v := expSmall num d D
-  for _ in [0:j] do
-    v := sqIval v D
+  let (d, j) := halvings num (num.log2 + 2) den 0
+  let v := sqTimes D j (expSmall num d D)
   if xi < 0 then
     -- 1 / [lo, hi] = [1/hi, 1/lo]
     let one2 := 10 ^ (2 * D)
-    return ⟨one2 / v.hi, ceilDiv one2 v.lo⟩
-  else return v
+    ⟨one2 / v.hi, ceilDiv one2 v.lo⟩
+  else v
 
 end BigDec.Spec
